@@ -150,6 +150,8 @@ func (c *ControlPlane) handleConn(ctx context.Context, lConn net.Conn) (err erro
 		}
 		// Not DNS traffic (or failed to read as DNS) - fall through to normal TCP handling
 		// Wrap the connection to include buffered data that was peeked but not consumed
+		// The DNS-detection read deadline must not leak into the relay phase.
+		_ = lConn.SetReadDeadline(time.Time{})
 		lConn = &bufioConn{Conn: lConn, reader: bufReader}
 	}
 
